@@ -27,12 +27,16 @@ from ref import transform as rt
 
 PROPERTY = "C07"
 RULE = (
-    "state-dedup BFS over all histories of the 12-letter alphabet (5 ways to make the inverse, add_/copy_ edits, setter "
-    "replace, recondition, update on either object, evaluation through __call__) up to the tier depth, for every "
-    "invertible class x D x parameter kind (Parameter / fixed tensor / callable); distinct = concrete content of all "
-    "parameters and buffers of both objects (buffer p only while its owner is up to date) + sharing topology + reference flags; every new state is judged in both "
-    "composition orders; non-trivial = an inverse exists, the judgement is defined and the forward map moves a probe by "
-    "> 1e-3; plus amplitude-pair order tests of the velocity models and ExpFlow on larger grids"
+    "state-dedup BFS over all histories of the 14-letter alphabet (5 ways to make the inverse, add_/copy_ edits, setter "
+    "replace, recondition, grid_() subdivision (dense velocity models), update on either object, evaluation through __call__, "
+    "direct evaluation without __call__ (forward / points / disp / tensor)) up to the tier depth, for every invertible class x D x "
+    "parameter kind (Parameter / fixed tensor / callable / stateful callable) plus mirror variants; distinct = concrete content of all "
+    "parameters and buffers of both objects (buffer p only while its owner is up to date) + sharing topology + reference flags; every new "
+    "state is judged through __call__ in both composition orders and, where the documentation makes un-updated use legal (both objects "
+    "updated since the last change, or tensor parameters + inverse made with update_buffers=True from a forward transform without stale "
+    "buffers), also directly through forward(), points(), disp() and the product of the tensor() representations; non-trivial = an inverse "
+    "exists, the judgement is defined and the forward map moves a probe by > 1e-3; plus amplitude-pair order tests of the velocity models "
+    "and ExpFlow on larger grids"
 )
 EXPLANATION = "bounded explicit-state exploration of (transform, inverse) pairs sharing parameters; inv o t = t o inv = id after every history"
 ASSUMPTIONS = [
@@ -41,7 +45,10 @@ ASSUMPTIONS = [
     "velocity models on smooth band-limited fields vanishing at the boundary: error <= 0.5 * A^2 sample (+1e-4), A = observed forward amplitude in samples; "
     "err(A)/err(A/2) <= 6 for A in {0.5, 1}",
     "after the forward parameters were replaced (setter / recondition) an inverse made with link=False is not judged until a new inverse is made "
-    "(documentation: shared tensors may be replaced); tensor()-level judgement only where the documentation says buffers are current",
+    "(documentation: shared tensors may be replaced); after grid_() on the forward transform nothing is promised for an inverse made before",
+    "direct (no __call__) judgement only where the documentation makes it legal: both objects updated / evaluated since the last parameter change, or "
+    "tensor parameters + update_buffers=True + no in-place edit since the forward's last update()/data_()/grid_() (these clear the buffers); in-place edits "
+    "without update() and callable parameters before update() stay undefined; DDF and FFD offer no inverse() and are outside C07 (their buffers are C09's)",
 ]
 MIN_NONTRIVIAL = {"quick": 2000, "thorough": 12000}
 MIN_OUTCOMES = {"quick": 900, "thorough": 2500}
@@ -65,7 +72,8 @@ GENERIC_LETTER = {"A": ("affine", "HomogeneousTransform"), "K": ("shearing", "Sh
                   "R": ("rotation", "EulerRotation"), "S": ("scaling", "AnisotropicScaling"), "Q": ("quaternion", "QuaternionRotation")}
 
 MAKE_INV = ("inv", "inv_ub", "inv_link", "inv_link_ub", "inv_prop")
-OPS = MAKE_INV + ("edit_add", "edit_copy", "replace", "recond", "update_t", "update_inv", "call")
+OPS = MAKE_INV + ("edit_add", "edit_copy", "replace", "recond", "regrid", "update_t", "update_inv", "call", "direct")
+NOT_FIRST = ("update_inv", "call", "direct")  # need an inverse
 
 
 # ---------------------------------------------------------------------------
@@ -268,7 +276,8 @@ def depth_of(cfg, tier: str) -> int:
     if cfg.get("mirror"):
         return 2 if tier == "quick" else 3  # the sign of the factors matters, not the history depth
     if tier == "quick":
-        return 2 if vel else 3
+        # update -> replace -> inverse(update_buffers=True) -> (direct evaluation of the reached state) needs three letters
+        return 3
     if cfg.get("N", 1) > 1 or (not vel and not cfg.get("ac", True)):
         return 3
     if vel:
@@ -282,7 +291,8 @@ def bounds(tier):
         "configurations": len(cf),
         "alphabet": list(OPS),
         "depth_linear": {k: depth_of({"vel": False, "kind": k}, tier) for k in ("param", "buffer", "callable")},
-        "depth_velocity": {k: depth_of({"vel": True, "kind": k}, tier) for k in ("param", "buffer", "callable")},
+        "depth_velocity(SVF, SVFFD)": {k: depth_of({"vel": True, "kind": k, "desc": {"cls": VELOCITY[0]}}, tier) for k in ("param", "buffer", "callable")},
+        "depth_velocity_composites": {k: depth_of({"vel": True, "kind": k, "desc": {"cls": "Sequential"}}, tier) for k in ("param", "buffer", "callable")},
         "depth_extra_variants(N=2, ac=False)": 3,
         "parameter_kinds": ["param", "buffer", "callable", "stateful (callable whose output differs between invocations)"],
         "mirror_variants(negative / mixed-sign scale factors, det < 0; depth 2 quick / 3 thorough)": sum(1 for c_ in cf if c_.get("mirror")),
@@ -404,6 +414,11 @@ class System:
         self.t_current = False
         self.inv_current = False
         self.cond = 1.0  # current conditioning scalar (callable kind)
+        self.t_dirty = False  # an in-place edit happened since the last update() / replacing operation (buffers may be stale)
+        self.inv_fresh = False  # inverse made with update_buffers=True from a forward transform without stale buffers, no change since
+        self.inv_invalid = False  # the forward grid was replaced after the inverse was made (nothing is promised for the old inverse)
+        self.regridded = False
+        self.pure_velocity = cfg["desc"]["cls"] in VELOCITY
         self.acc = None  # accumulator for headroom counters (optional)
 
     # -- construction ------------------------------------------------------------------------------------
@@ -519,10 +534,27 @@ class System:
             # a linked inverse reads the parameters the forward transform has buffered ("directly access the parameters
             # from this transformation"): updating it while the forward's predicted parameters are not current is stale
             # usage (documented AssertionError "params must be set first" for a never-updated generic transform)
-            return self.has_inv and not (self.link and self.callable_kind and not self.t_current)
+            return self.has_inv and not self.inv_invalid and not (self.link and self.callable_kind and not self.t_current)
         if op == "call":
-            return self.has_inv
+            return self.has_inv and not self.inv_invalid
+        if op == "direct":
+            return self.direct_defined()
+        if op == "regrid":
+            # grid_() of the dense velocity models (SVF: resampling, SVFFD: subdivision) with tensor parameters, once per history
+            return self.pure_velocity and not self.callable_kind and not self.regridded
         return True
+
+    def direct_defined(self) -> bool:
+        """May the pair be evaluated WITHOUT __call__ (forward / points / disp / tensor)?  Yes if both objects were updated or
+        evaluated since the last parameter change, or - for tensor parameters - if the inverse was made with update_buffers=True
+        ("If False, the update() function of the returned inverse transformation has to be called before it is used") from a forward
+        transform whose buffers are not stale (no in-place edit since its last update() or replacing data_/grid_ call, which clear
+        the buffers) and nothing changed since.  Callable parameters: observations before update() stay undefined."""
+        if not (self.has_inv and self.defined) or self.inv_invalid:
+            return False
+        if self.t_current and self.inv_current:
+            return True
+        return (not self.callable_kind) and self.inv_fresh and not self.t_dirty
 
     def _param_tensors(self, leaf: Leaf):
         if leaf.net is None:
@@ -575,6 +607,8 @@ class System:
             # stateful predictor: an unlinked inverse invokes the predictor itself and obtains other parameters (rule 1)
             self.defined = self.link or not self.stateful
             self.inv_current = self.t_current and op in ("inv_ub", "inv_link_ub", "inv_prop")
+            self.inv_fresh = (not self.t_dirty) and op in ("inv_ub", "inv_link_ub", "inv_prop")
+            self.inv_invalid = False
             return None
         if op in ("edit_add", "edit_copy"):
             with torch.no_grad():
@@ -593,12 +627,16 @@ class System:
                             p.copy_(self._raw_of(leaf, "V1"))
             self.t_current = False
             self.inv_current = False
+            self.t_dirty = True
+            self.inv_fresh = False
             return None
         if op == "replace":
             for leaf in self.leaves:
                 _apply_setter(leaf.module, leaf.cls if leaf.cls in LINEAR_ELEMENTARY else "dense", leaf.values["R"])
             self.t_current = False
             self.inv_current = False
+            self.t_dirty = False  # data_() replaces the parameters and clears the buffers
+            self.inv_fresh = False
             if self.has_inv and not self.link:
                 self.defined = False
             return None
@@ -607,12 +645,34 @@ class System:
             t.condition_(self.cond)
             self.t_current = False
             self.inv_current = False
+            self.inv_fresh = False
             if self.has_inv and not self.link:
+                self.defined = False
+            return None
+        if op == "regrid":
+            r = self.rgrid
+            rnew = rg.resized(r, 2 * r.n - 1, r.ac)  # same domain, subdivided: the only grid change SVFFD supports
+            from deepali.core.grid import Grid
+
+            gnew = Grid(size=tuple(int(v) for v in rnew.n), spacing=tuple(rnew.s.tolist()), center=tuple(rnew.c.tolist()),
+                        direction=rnew.R.tolist(), align_corners=rnew.ac)
+            t.grid_(gnew)
+            self.rgrid = rnew
+            for leaf in self.leaves:
+                leaf.values = self._values(leaf.cls, 0, leaf.module)  # menu fields for the new parameter shape
+            self.regridded = True
+            self.t_current = False
+            self.inv_current = False
+            self.t_dirty = False  # grid_() resamples / subdivides the parameters through data_(), which clears the buffers
+            self.inv_fresh = False
+            if self.has_inv:
+                self.inv_invalid = True  # the old inverse keeps the old grid: nothing is promised for it
                 self.defined = False
             return None
         if op == "update_t":
             t.update()
             self.t_current = True
+            self.t_dirty = False
             if self.stateful:
                 self.inv_current = False  # the forward transform now holds the next prediction
             return None
@@ -627,6 +687,8 @@ class System:
             return None
         if op == "call":
             return self.evaluate_call()
+        if op == "direct":
+            return self.evaluate_direct()
         raise KeyError(op)
 
     # -- observations ---------------------------------------------------------------------------------------
@@ -660,22 +722,57 @@ class System:
             z = self.inv(x)
             x2 = self.t(z)
         self.t_current = True
+        self.t_dirty = False
         self.inv_current = self.defined
         return {"x": x64, "y": y.detach().double().numpy(), "x1": x1.detach().double().numpy(),
                 "z": z.detach().double().numpy(), "x2": x2.detach().double().numpy(),
                 "bytes": tensor_bytes(y) + tensor_bytes(x1) + tensor_bytes(z) + tensor_bytes(x2)}
 
-    def judge_call(self, obs):
-        """Problems [(kind, detail)] + nontrivial flag for an evaluation through __call__."""
+    def evaluate_direct(self):
+        """The same compositions WITHOUT __call__ (no update() pre-hook): forward(), and points() with default arguments."""
+        x64 = self.probe()
+        x = _tensor(x64)
+        t, inv = self.t, self.inv
+        y = t.forward(x)
+        x1 = inv.forward(y)
+        z = inv.forward(x)
+        x2 = t.forward(z)
+        xs = x.reshape(x.shape[0], -1, x.shape[-1])
+        yp = t.points(xs)
+        x1p = inv.points(yp)
+        self.t_current = True
+        self.inv_current = True
+        return {"x": x64, "y": y.detach().double().numpy(), "x1": x1.detach().double().numpy(),
+                "z": z.detach().double().numpy(), "x2": x2.detach().double().numpy(),
+                "xs": xs.detach().double().numpy(), "yp": yp.detach().double().numpy(), "x1p": x1p.detach().double().numpy(),
+                "bytes": tensor_bytes(y) + tensor_bytes(x1) + tensor_bytes(z) + tensor_bytes(x2) + tensor_bytes(x1p)}
+
+    def judge_direct(self, obs):
+        probs, nt = self.judge_call(obs, both=True)
+        pobs = {"x": obs["xs"], "y": obs["yp"], "x1": obs["x1p"], "z": obs["yp"], "x2": obs["xs"]}
+        p2, _ = self.judge_call(pobs, both=False)
+        probs = [("forward/" + k, d) for k, d in probs] + [("points/" + k, d) for k, d in p2]
+        # dense models: disp() on the own grid is the tensor representation
+        if self.pure_velocity:
+            st, res = guarded(lambda: (self.t.disp(), self.t.tensor(), self.inv.disp(), self.inv.tensor()))
+            if st == "raises":
+                probs.append(("disp/" + raises_kind(res), exc_text(res)))
+            elif not (torch.equal(res[0], res[1]) and torch.equal(res[2], res[3])):
+                probs.append(("disp/differs-from-tensor", "disp() on the own grid is not the tensor() representation"))
+        return probs, nt
+
+    def judge_call(self, obs, both=None):
+        """Problems [(kind, detail)] + nontrivial flag for an evaluation (both=None: both orders unless the predictor is stateful)."""
         out = []
         x = obs["x"]
         Ng = obs["y"].shape[0]
-        if obs["x1"].shape != obs["y"].shape or obs["x2"].shape != obs["y"].shape or obs["y"].shape[1:] != x.shape[1:]:
+        second = not (both is False or (both is None and self.stateful))  # is t(inv(x)) judged (and was it evaluated at all)?
+        if obs["x1"].shape != obs["y"].shape or (second and obs["x2"].shape != obs["y"].shape) or obs["y"].shape[1:] != x.shape[1:]:
             return [("shape", f"shapes y={obs['y'].shape} inv(y)={obs['x1'].shape} t(inv(x))={obs['x2'].shape}")], False
         xb = np.broadcast_to(x, obs["y"].shape)
         moved = float(np.abs(obs["y"] - xb).max())
         for name, got in (("inv(t(x))", obs["x1"]), ("t(inv(x))", obs["x2"])):
-            if self.stateful and name == "t(inv(x))":
+            if name == "t(inv(x))" and (both is False or (both is None and self.stateful)):
                 continue
             if not np.all(np.isfinite(got)):
                 out.append((f"{name}/non-finite", "result contains nan/inf"))
@@ -763,7 +860,8 @@ class System:
 
     # -- canonical state -------------------------------------------------------------------------------------------
     def key(self) -> bytes:
-        parts = [repr((self.has_inv, self.link, self.defined, self.t_current, self.inv_current, self.cond)).encode()]
+        parts = [repr((self.has_inv, self.link, self.defined, self.t_current, self.inv_current, self.cond,
+                       self.t_dirty, self.inv_fresh, self.inv_invalid, self.regridded)).encode()]
         fwd = {}
         for leaf in self.leaves:
             for p in self._param_tensors(leaf):
@@ -876,7 +974,7 @@ def ops_sig(hist) -> str:
             last = i
     if last is None:
         return "no-inverse"
-    change = ("edit_add", "edit_copy", "replace", "recond")
+    change = ("edit_add", "edit_copy", "replace", "recond", "regrid")
     before = sorted(set(op for op in hist[:last] if op in change))
     after = sorted(set(op for op in hist[last + 1:] if op in change))
     s = hist[last]
@@ -910,6 +1008,14 @@ def run_history(cfg, hist, acc: Acc = None, judge: bool = True):
             for kind, detail in sysm.problems:
                 out.append((f"C07/{op}/{fam}/{ops_sig(hist[: i + 1])}/{kind}/{tail}", detail))
             return None, out, False, b"problem"
+        if op == "direct" and judge:
+            probs, nt = sysm.judge_direct(res)
+            nontriv |= nt
+            obytes += res["bytes"]
+            for kind, detail in probs:
+                out.append((f"C07/direct/{fam}/{ops_sig(hist[: i + 1])}/{kind}/{tail}", detail))
+            if probs:
+                return None, out, nontriv, obytes
         if op == "call" and judge and sysm.defined:
             probs, nt = sysm.judge_call(res)
             nontriv |= nt
@@ -924,7 +1030,7 @@ def run_history(cfg, hist, acc: Acc = None, judge: bool = True):
     # judgement of the reached state
     if sysm.has_inv:
         if sysm.defined:
-            if sysm.t_current and sysm.inv_current:
+            if (sysm.t_current and sysm.inv_current) or sysm.direct_defined():
                 probs, ob = sysm.judge_tensor()
                 if ob:
                     obytes += ob
@@ -932,6 +1038,20 @@ def run_history(cfg, hist, acc: Acc = None, judge: bool = True):
                     out.append((f"C07/state/{fam}/{ops_sig(hist)}/{kind}/{tail}", detail))
             elif acc is not None:
                 acc.undef("tensor-level: buffers not documented current")
+            if sysm.direct_defined():
+                st, res = guarded(sysm.evaluate_direct)
+                if st == "raises":
+                    out.append((f"C07/state/{fam}/direct/{raises_kind(res)}/{tail}", exc_text(res)))
+                else:
+                    probs, nt = sysm.judge_direct(res)
+                    nontriv |= nt
+                    obytes += res["bytes"]
+                    for kind, detail in probs:
+                        out.append((f"C07/state/{fam}/{ops_sig(hist)}/direct/{kind}/{tail}", detail))
+                    if acc is not None:
+                        acc.info["direct_evaluations_judged"] = acc.info.get("direct_evaluations_judged", 0) + 1
+            elif acc is not None:
+                acc.undef("direct evaluation: update() required first (in-place edit / callable parameters / no update_buffers)")
             st, res = guarded(sysm.evaluate_call)
             if st == "raises":
                 out.append((f"C07/state/{fam}/call/{raises_kind(res)}/{tail}", exc_text(res)))
@@ -954,7 +1074,8 @@ def explore(cfg, first_op: str, depth: int, acc: Acc):
     level = 1
     ckey = (label(cfg["desc"]), cfg["D"], cfg["ac"], cfg["kind"], cfg["N"], bool(cfg.get("mirror")))
     ck = cfg["kind"] in CALLABLE_KINDS
-    if (first_op == "recond" and not ck) or (first_op == "replace" and ck) or (first_op == "edit_copy" and cfg["kind"] == "stateful"):
+    if (first_op == "recond" and not ck) or (first_op == "replace" and ck) or (first_op == "edit_copy" and cfg["kind"] == "stateful") \
+            or (first_op == "regrid" and (ck or cfg["desc"]["cls"] not in VELOCITY)):
         acc.undef("op-not-enabled:" + first_op)
         return
     while frontier and level <= depth:
@@ -993,7 +1114,9 @@ def explore(cfg, first_op: str, depth: int, acc: Acc):
                         continue
                     if op == "edit_copy" and cfg["kind"] == "stateful":
                         continue
-                    if op in ("update_inv", "call") and not has_inv:
+                    if op in NOT_FIRST and not has_inv:
+                        continue
+                    if op == "regrid" and (ck or cfg["desc"]["cls"] not in VELOCITY or "regrid" in hist):
                         continue
                     nxt.append(hist + [op])
         frontier = nxt
@@ -1141,8 +1264,10 @@ def shards(tier: str, seed: int):
                         "lab": f"{label(cfg['desc'])}/D{cfg['D']}/{cfg['kind']}" + ("/mirror" if cfg.get("mirror") else "")})
             continue
         for op in OPS:
-            if op in ("update_inv", "call"):
+            if op in NOT_FIRST:
                 continue  # not enabled in the initial state (no inverse yet)
+            if op == "regrid" and (cfg["kind"] in CALLABLE_KINDS or cfg["desc"]["cls"] not in VELOCITY):
+                continue
             out.append({"tier": tier, "seed": seed, "sub": "history", "cfg": i, "first": op, "lab": f"{label(cfg['desc'])}/D{cfg['D']}/{cfg['kind']}" + ("/mirror" if cfg.get("mirror") else "")})
     oc = order_cases(tier, seed)
     for i in range(0, len(oc), 4):
@@ -1158,7 +1283,7 @@ def run_shard(shard) -> Acc:
     tier, seed = shard["tier"], shard["seed"]
     if shard["sub"] == "history":
         cfg = configs(tier, seed)[shard["cfg"]]
-        firsts = [op for op in OPS if op not in ("update_inv", "call")] if shard["first"] == "*" else [shard["first"]]
+        firsts = [op for op in OPS if op not in NOT_FIRST] if shard["first"] == "*" else [shard["first"]]
         for first in firsts:
             st, r = guarded(explore, cfg, first, depth_of(cfg, tier), acc)
             if st == "raises":
